@@ -39,6 +39,7 @@ Go code of the core (current tree):
             default:
                 verifYield(1)                       -- hook1
                 if CAS(&decided, 0, 1) {            -- wCas
+                    verifYield(4)                   -- hook4
                     my.result, my.err = result, err -- wWrite
                 }
             }
@@ -78,6 +79,7 @@ inductive CPc where
   | returned (w : Nat) (v : Val) (e : Err)
   | hook1 (w : Nat) (v : Val) (e : Err)
   | cas (w : Nat) (v : Val) (e : Err)
+  | hook4 (w : Nat) (v : Val) (e : Err)
   | write (w : Nat) (v : Val) (e : Err)
   | closing (w : Nat)
   | closed
@@ -201,6 +203,7 @@ inductive Act where
   | wCheck (k a : Nat)
   | hook1 (k a : Nat)
   | wCas (k a : Nat)
+  | hook4 (k a : Nat)
   | wWrite (k a : Nat)
   | wClose (k a : Nat)
   | advance (t : Nat)                  -- time passes
@@ -304,8 +307,12 @@ def tstep (c : Cfg) (now : Nat) (qlen : Nat) (t : Task) : Act → Option Task
   | .wCas _ a =>
     match (t.at_ a).pc with
     | .cas w v e =>
-      if (t.at_ a).decided = 0 then some (t.setAt a { t.at_ a with pc := .write w v e, decided := 1 })
+      if (t.at_ a).decided = 0 then some (t.setAt a { t.at_ a with pc := .hook4 w v e, decided := 1 })
       else some (t.setAt a { t.at_ a with pc := .closing w })
+    | _ => none
+  | .hook4 _ a =>
+    match (t.at_ a).pc with
+    | .hook4 w v e => some (t.setAt a { t.at_ a with pc := .write w v e })
     | _ => none
   | .wWrite _ a =>
     match (t.at_ a).pc with
@@ -322,12 +329,13 @@ def Act.task : Act → Nat
   | .send k _ | .busyTest k | .discardCb k | .enq k | .take k | .loopTest k | .sendCl k | .hook3 k
   | .selDone k | .selCtx k | .hook2 k | .decide k | .writeDE k | .waitDone k | .cancel k | .errTest k
   | .onError k | .wgDone k | .fire k _ | .wTake k _ _ | .wStart k _ _ | .wEnd k _ _ _ | .wCheck k _
-  | .hook1 k _ | .wCas k _ | .wWrite k _ | .wClose k _ => k
+  | .hook1 k _ | .wCas k _ | .hook4 k _ | .wWrite k _ | .wClose k _ => k
   | .advance _ => 0
 
 /-- slot held by a closure -/
 def CPc.slot? : CPc → Option Nat
-  | .taken w | .running w _ | .returned w _ _ | .hook1 w _ _ | .cas w _ _ | .write w _ _ | .closing w => Option.some w
+  | .taken w | .running w _ | .returned w _ _ | .hook1 w _ _ | .cas w _ _ | .hook4 w _ _ | .write w _ _ | .closing w =>
+    Option.some w
   | _ => Option.none
 
 /-- global step: channel / slot / clock effects + the task-local effect `tstep` -/
@@ -408,6 +416,7 @@ def taskActs (c : Cfg) (s : State) (k : Nat) : List Act :=
      | .returned _ _ _ => [.wCheck k a]
      | .hook1 _ _ _ => [.hook1 k a]
      | .cas _ _ _ => [.wCas k a]
+     | .hook4 _ _ _ => [.hook4 k a]
      | .write _ _ _ => [.wWrite k a]
      | .closing _ => [.wClose k a]
      | _ => [])
